@@ -271,7 +271,20 @@ func c15Case(c *fw.Case, typ string, allBits bool) {
 		if !allBits {
 			start = r.Intn(stride)
 		}
+		var bits []int
 		for bit := start; bit < nbits; bit += stride {
+			bits = append(bits, bit)
+		}
+		if !allBits {
+			// the edges of every segment always: the first two and the last three bytes (whatever covers a segment in blocks
+			// or groups treats its ends differently from its middle)
+			for _, bit := range []int{0, 7, 8, 15, nbits - 24, nbits - 17, nbits - 16, nbits - 9, nbits - 8, nbits - 1} {
+				if bit >= 0 && bit < nbits {
+					bits = append(bits, bit)
+				}
+			}
+		}
+		for _, bit := range bits {
 			bit := bit
 			t, ok := tamperSegment(compact, seg, func(b []byte) []byte { b[bit/8] ^= 1 << uint(7-bit%8); return b })
 			if !ok {
